@@ -656,6 +656,49 @@ class C05(Prop):
                         self.bad.append(("%s on complex data: component %s evaluates to %s, the documented meaning gives %s" % (desc, list(c), got4, want4(c)),
                                          dict(kind="compound-scalar-shortcut-complex", op=desc, component=list(c), idx={})))
         ev.cov["compound_scalar_shortcut_complex_checks"] = nsc
+        # element-wise operators on tensors of rank >= 3 with unequal extents, and constant folding of math functions of literals
+        import math as _m
+        nel = 0
+        for k in range(6):
+            G5 = gen.Gen(rng, gdim=2, math=False, compound=False, derivs=False, reuse=0.5)
+            sh = rng.choice([(2, 3, 2), (3, 2, 2), (2, 3, 4), (2, 2, 3)])
+            sc = G5.coeffs[()]
+            def tens(off):
+                def nest(s_, pre=()):
+                    if not s_:
+                        return sc[(sum(pre) + off) % len(sc)] * (1 + sum((i_ + 1) * (7 ** n_) for n_, i_ in enumerate(pre)))
+                    return [nest(s_[1:], pre + (i_,)) for i_ in range(s_[0])]
+                return ufl.as_tensor(nest(sh))
+            A5, B5 = tens(0), tens(1)
+            vals5 = {c_: 0.5 + 0.25 * n_ for n_, c_ in enumerate(sc)}
+            x5 = (0.25, 0.5)
+            for nm, op, ref in (("elem_mult", ufl.elem_mult, lambda a_, b_: a_ * b_), ("elem_div", ufl.elem_div, lambda a_, b_: a_ / b_)):
+                try:
+                    R5 = op(A5, B5)
+                except Exception as ex:  # noqa
+                    self.bad.append(("%s of two tensors of shape %s raises %s" % (nm, sh, type(ex).__name__), dict(kind="elem-op-raise", op=nm, component=[], idx={})))
+                    continue
+                nel += 1
+                if tuple(R5.ufl_shape) != tuple(sh):
+                    self.bad.append(("%s of two tensors of shape %s has shape %s" % (nm, sh, tuple(R5.ufl_shape)), dict(kind="elem-op-shape", op=nm, component=[], idx={})))
+                    continue
+                for c5 in itertools.product(*[range(d_) for d_ in sh]):
+                    got5, want5 = float(R5(x5, vals5, c5)), ref(float(A5(x5, vals5, c5)), float(B5(x5, vals5, c5)))
+                    if abs(got5 - want5) > 1e-9 * max(1.0, abs(want5)):
+                        self.bad.append(("%s of two tensors of shape %s: component %s is %s, the element-wise operation gives %s" % (nm, sh, list(c5), got5, want5), dict(kind="elem-op-value", op=nm, component=list(c5), idx={})))
+                        break
+        for fn_, ref_, args_ in ((ufl.atan2, _m.atan2, [(1.0, 2.0), (-0.5, 3), (2, -1.5)]), (ufl.sin, _m.sin, [(0.5,), (2,)]), (ufl.cos, _m.cos, [(0.5,)]), (ufl.exp, _m.exp, [(1.5,), (-1,)]),
+                                 (ufl.ln, _m.log, [(2.5,)]), (ufl.sqrt, _m.sqrt, [(2.25,), (2,)]), (ufl.tan, _m.tan, [(0.5,)]), (ufl.atan, _m.atan, [(0.5,)]), (ufl.erf, _m.erf, [(0.5,)]),
+                                 (ufl.cosh, _m.cosh, [(0.5,)]), (ufl.sinh, _m.sinh, [(0.5,)]), (ufl.tanh, _m.tanh, [(0.5,)]), (ufl.acos, _m.acos, [(0.5,)]), (ufl.asin, _m.asin, [(0.5,)])):
+            for a_ in args_:
+                try:
+                    got6 = float(fn_(*[ufl.as_ufl(v_) for v_ in a_]))
+                except Exception:  # noqa
+                    continue
+                nel += 1
+                if abs(got6 - ref_(*a_)) > 1e-12 * max(1.0, abs(ref_(*a_))):
+                    self.bad.append(("%s%s of literals folds to %s, the function value is %s" % (fn_.__name__, a_, got6, ref_(*a_)), dict(kind="literal-folding:" + fn_.__name__, component=[], idx={})))
+        ev.cov["elementwise_and_literal_folding_checks"] = nel
         nval, vbad = vo.run()
         for desc, data in vbad:
             self.bad.append(("value of %s differs from the operation applied to the operand values (component %s, indices %s)" % (desc, data["component"], data["idx"]), data))
